@@ -1,16 +1,18 @@
 #!/bin/bash
 # usage: confirm_seed.sh <worktree>   (the worktree has the seeded change applied and tests/seeded_demo.rs present)
 # Confirms independently: demo fails with the change, passes without it, full suite passes with it.
+# (No `git stash`: the stash list is shared between all worktrees of a repository.)
 W=$1
 cd $W || exit 2
 export CARGO_TARGET_DIR=$W/target
 OUT=$W/_seed/confirm.txt
 : > $OUT
-demo() { cargo nextest run --offline --test seeded_demo 2>&1 | tail -3; }
+if ! diff -q <(git diff -- src) $W/_seed/patch.diff >/dev/null; then echo "== WARNING: working tree diff differs from _seed/patch.diff; using _seed/patch.diff" >> $OUT; git checkout -- src; git apply $W/_seed/patch.diff || { echo "patch does not apply" >> $OUT; cat $OUT; exit 2; }; fi
+demo() { cargo nextest run --offline --test seeded_demo --no-fail-fast 2>&1 | tail -3; }
 echo "== demo WITH change" >> $OUT; demo >> $OUT
-git stash push -q -- src
+git apply -R $W/_seed/patch.diff
 echo "== demo WITHOUT change" >> $OUT; demo >> $OUT
-git stash pop -q
+git apply $W/_seed/patch.diff
 mv tests/seeded_demo.rs /tmp/seeded_demo_$$.rs
 echo "== full suite WITH change" >> $OUT
 cargo nextest run --workspace --no-fail-fast --test-threads 8 --offline -E 'not test(test_builder_toroidal_periodic_3d_success)' 2>&1 | tail -2 >> $OUT
